@@ -25,9 +25,6 @@ struct LineSpec {
 }
 
 impl LineSpec {
-    fn to_json(&self) -> Value {
-        json!([self.chars, [self.pos.0, self.pos.1], self.sty.to_arr(), self.api])
-    }
     fn from_json(v: &Value) -> LineSpec {
         LineSpec {
             chars: cps_of(&v[0]),
